@@ -152,7 +152,7 @@ def check(tier):
             bodies = ex.get("trigger_bodies", {})
             floors = {"statements": (rep["cases"], 300), "statements that fired audit triggers": (ex.get("statements_that_fired_audit_triggers", 0), 120),
                       "statements adding several audit entries": (ex.get("statements_with_several_audit_rows", 0), 60),
-                      "triggers with FOLLOWS / PRECEDES": (ex.get("triggers_with_follows_or_precedes", 0), 15),
+                      "triggers with FOLLOWS / PRECEDES": (ex.get("triggers_with_follows_or_precedes", 0), 8),
                       "SET NEW triggers": (sum(n for k, n in bodies.items() if k.endswith(" set")), 4),
                       "SIGNAL failures": (kinds.get("err:signal", 0), 10), "directly compared steps": (a["direct_compared"], 100)}
             for what, (got, floor) in floors.items():
